@@ -7,6 +7,8 @@ package log
 // that is found on the strength of another file's record.
 
 import (
+	"fmt"
+	"os"
 	"path/filepath"
 	"strings"
 	"time"
@@ -122,4 +124,50 @@ func H_C18_Parse(v *verifrt.T) {
 	}, now.Add(-time.Hour), now.Add(time.Hour))
 	v.Assert(n == 1, "C18.O2 every record written is replayed once")
 	v.Reach("parsed")
+}
+
+func init() {
+	verifrt.Register("H_C18_Windows", H_C18_Windows)
+}
+
+// O3: a record written on day R (a day file created through the logger's own
+// path scheme, around a month boundary) is found by every window
+// [after, before] whose calendar days include R — for every time of day of the
+// window's ends (symbolic nanoseconds within the day).
+func H_C18_Windows(v *verifrt.T) {
+	v.FixClock()
+	root := filepath.Join(v.TempRoot(), "log")
+	f := NewFileIO(root, nil, nil, false)
+	base := time.Date(2024, 1, 30, 0, 0, 0, 0, time.UTC) // 30 Jan, 31 Jan, 1 Feb, 2 Feb, 3 Feb
+	days := v.Param("DAYS", 4)
+	rd := v.Choose("record-day", days)
+	rec := base.Add(time.Duration(rd)*24*time.Hour + 12*time.Hour)
+	path := f.logger.getPath(rec)
+	os.MkdirAll(filepath.Dir(path), 0o755)
+	line := fmt.Sprintf("%s:%s:%s:%d:%d:\n", "dir/a.dat", "", "h1", 5, rec.Unix())
+	os.WriteFile(path, []byte(line), 0o644)
+	da := v.Choose("after-day", days)
+	db := v.Choose("before-day", days)
+	v.Assume(da <= db)
+	sa := v.Duration("after-time-of-day", 0, 24*time.Hour-1)
+	sb := v.Duration("before-time-of-day", 0, 24*time.Hour-1)
+	after := base.Add(time.Duration(da) * 24 * time.Hour).Add(sa)
+	before := base.Add(time.Duration(db) * 24 * time.Hour).Add(sb)
+	v.Assume(after.Before(before))
+	got := f.WasReceived("dir/a.dat", "h1", after, before)
+	touched := da <= rd && rd <= db
+	if touched {
+		v.Assert(got, "C18.O3 a record written on a day the window touches is found (across day and month boundaries)")
+		v.Reach("touched")
+	} else {
+		v.Reach("not-touched")
+	}
+	n := 0
+	f.Parse(func(name, renamed, hash string, size int64, t time.Time) bool {
+		n++
+		return false
+	}, after, before)
+	if touched {
+		v.Assert(n >= 1, "C18.O3 replaying the window yields the record written on a day it touches")
+	}
 }
